@@ -3781,6 +3781,8 @@ func (c *amd64Compiler) compileFillLoopImpl(destinationOffset, value, fillSize *
 	emptyEightGroupsJump := c.assembler.CompileJump(amd64.JEQ)
 
 	if replicateByte {
+		// Only the low byte of the i32 operand is the fill value (memory.fill takes it modulo 256).
+		c.assembler.CompileConstToRegister(amd64.ANDQ, 0xff, value.register)
 		// Replicate single byte onto full 8-byte register.
 		c.assembler.CompileConstToRegister(amd64.MOVQ, 0x0101010101010101, tmp)
 		c.assembler.CompileRegisterToRegister(amd64.IMULQ, tmp, value.register)
